@@ -454,6 +454,8 @@ class C18(core.Check):
         signatures failed the break is reported from here (no failing input: every generated and
         enumerated case went through the oracle)."""
         broken = []
+        if getattr(self, 'model', None) is None:
+            broken.append('coq-build / extraction of the C18 development')
         if self._disagree:
             broken.append('correspondence:run_C18')
         if self._tie_broken:
@@ -469,8 +471,8 @@ class C18(core.Check):
             return [core.Violation('correspondence:C18', 'model and implementation disagree (%d cases): %s'
                                    % (len(self._disagree), d), case=c, observed=obs, expected=mo,
                                    kind='correspondence', no_input=True, broken=broken)]
-        return [core.Violation('obligation:C18', 'generated ties no longer check', kind='obligation',
-                               no_input=True, broken=broken)]
+        return [core.Violation('obligation:C18', 'proof/tie obligations no longer check: ' + ', '.join(broken),
+                               kind='obligation', no_input=True, broken=broken)]
 
     def _cmp(self, m, obs):
         m_res, m_j, m_subs = m
